@@ -252,6 +252,9 @@ structure Obs where
   runningAcked : Bool := false   -- NewEnvironment failed in DEPLOY although every task was running (and the core had
                                  -- acknowledged every TASK_RUNNING update) well before the deadline
   lost : List Nat := []          -- indices of the live tasks whose executor / agent was lost during the request
+  att : Option (List (List Nat)) := none   -- NewEnvironment of a scenario with scripted offers rounds: the tasks launched
+                                 -- in each deployment attempt of DEPLOY (Model/DeployAttempts.lean)
+  verdictLost : Bool := false    -- …and acquireTasks never heard the verdict of the last of them (it is still waiting)
   deriving DecidableEq, Repr
 
 def indexed {α} (xs : List α) : List (Nat × α) := (List.range xs.length).zip xs
